@@ -121,7 +121,8 @@ Proof.
   - cbn in H, H'. inversion H. inversion H'. constructor.
   - assert (Hin' : forall y, In y r -> In y bd) by (intros y Hy; apply Hin; right; exact Hy).
     destruct (g_rel x (Hin x (or_introl eq_refl))) as [(j & j' & -> & Hg & Hr)|(q & -> & Hg)]; rewrite Hg in H'; cbn [J5sConvert.cv_files] in H, H'.
-    + apply obind_ok in H. destruct H as (a & Ea & H). apply obind_ok in H. destruct H as (c & Ec & H).
+    + destruct (file_lists_ok j); [|discriminate]. destruct (file_lists_ok j'); [|discriminate].
+      apply obind_ok in H. destruct H as (a & Ea & H). apply obind_ok in H. destruct H as (c & Ec & H).
       apply obind_ok in H'. destruct H' as (a' & Ea' & H'). apply obind_ok in H'. destruct H' as (c' & Ec' & H').
       inversion H. inversion H'. subst. unfold files_ext. apply sub_list_app.
       * eapply (cv_file_ext snake camel screaming); [exact Hr|intros im; apply Hle|exact Ea|exact Ea'].
